@@ -1056,10 +1056,24 @@ def run_batch(progs, workdir, ego="/verif/.build/bin/ego", ego_args=(), go_timeo
             raise RuntimeError("go build timed out after %ss" % go_timeout)
         if r.returncode != 0:
             raise RuntimeError("go build failed:\n" + r.stdout.decode("utf-8", "replace"))
-    eenv = dict(os.environ)
-    eenv.update({"HOME": home, "TMPDIR": tmp, "EGO_PATH": os.path.dirname(os.path.abspath(ego))})
+    # one private HOME/TMPDIR per worker thread: concurrent ego processes sharing a TMPDIR race on creating ego-system.db
+    import threading
+    _envs, _elock = {}, threading.Lock()
+
+    def _env_for_thread():
+        tid = threading.get_ident()
+        with _elock:
+            if tid not in _envs:
+                h, t = os.path.join(workdir, "home%d" % len(_envs)), os.path.join(workdir, "tmp%d" % len(_envs))
+                os.makedirs(h, exist_ok=True)
+                os.makedirs(t, exist_ok=True)
+                e = dict(os.environ)
+                e.update({"HOME": h, "TMPDIR": t, "EGO_PATH": os.path.dirname(os.path.abspath(ego))})
+                _envs[tid] = (e, t)
+            return _envs[tid]
 
     def one(p):
+        eenv, tmp = _env_for_thread()
         pid = str(p["id"])
         res = {"id": p["id"]}
         try:
@@ -1095,6 +1109,10 @@ def run_batch(progs, workdir, ego="/verif/.build/bin/ego", ego_args=(), go_timeo
         res["agree"] = (res["go_out"] == res["ego_out"]) and (res["go_abort"] == res["ego_abort"])
         return res
 
+    # warm-up, alone: the first ego process creates ego-system.db beside the binary; concurrent first runs of a freshly
+    # built binary race on it ("table dsns already exists")
+    if progs:
+        one(progs[0])
     with ThreadPoolExecutor(max_workers=jobs) as ex:
         return list(ex.map(one, progs))
 
